@@ -19,9 +19,10 @@ def main():
     if a.setup:
         ok, msg = core.run_translator()
         print("translator:", ok, msg)
-        ok2, log = core.coq_build(["all"], timeout=7200)
+        ok2, log = core.coq_build(["-k", "all"], timeout=7200)
         print(log[-3000:])
-        sys.exit(0 if (ok and ok2) else 1)
+        print("coq build complete:", ok2, "(files that fail to build are reported by the checks that need them)")
+        sys.exit(0 if ok else 1)
     if a.replay:
         rp = json.loads(Path(a.replay).read_text())
         mod = importlib.import_module("checks." + rp["property"])
